@@ -44,6 +44,8 @@ func runC16(p *Prog, r *Report) {
 	ruleErr(p, r)
 	r.Explain = append(r.Explain, "R-LAYOUT: each serialize* function of the index and its deserialize* sibling go through the same sequence of layout items — fixed-width integers (binary.BigEndian.PutUintN / UintN), single bytes, raw byte runs, nested records (a call of another writer / of its sibling reader) — with the same widths, the same constant offsets and strides (named constants folded), the same loop nesting and, where both sides name one, the same struct field. A necessary condition of the round trip; values, clamping and lengths are not decided.")
 	ruleLayout(p, r, "fontscan", fontscanPairs, []string{"systemFontsIndex.serializeToFile", "deserializeIndexFile"}, 10)
+	r.Explain = append(r.Explain, "R-STAMP: every os.FileInfo that reaches newTimeStamp — the stamp stored in the index and compared to decide whether a previous scan is reused — comes (through parameters, up the call graph) from a stat that follows symbolic links (os.Stat, (*os.File).Stat), or from os.Lstat / fs.DirEntry.Info only where the entry was tested not to be a link. A necessary condition of 'incremental refresh == scan from scratch' when the target of a link is replaced or touched; the refresh over file-system histories itself is not decided.")
+	ruleStamp(p, r, "fontscan", "newTimeStamp", 1)
 	r.Assumptions = append(r.Assumptions, "integer overflow of offset arithmetic is not modelled", "compress/gzip and bytes.Buffer are trusted", "incremental refresh versus from-scratch scan over file-system histories is behaviour over an external mutable world and is NOT decided; of the round trip only the writer/reader layout agreement (R-LAYOUT) is decided, not the values")
 	r.NotDecided = append(r.NotDecided, "round-trip equality of the index beyond layout agreement (values, clamping, NaN)", "refresh equals rescan after any history of file-system changes")
 }
@@ -96,6 +98,11 @@ func ruleErr(p *Prog, r *Report) {
 }
 
 func controlsC16(cp *Prog, r *Report) {
+	expectControl(r, "R-STAMP", func(cr *Report) {
+		ruleStamp(cp, cr, "stamp", "newStampGood", 1)
+		ruleStamp(cp, cr, "stamp", "newStampBad", 1)
+		ruleStamp(cp, cr, "stamp", "newStampOpt", 2)
+	}, "newStampBad/(io/fs.DirEntry).Info")
 	expectControl(r, "R-GEN", func(cr *Report) {
 		ruleGenReaders(cp, cr, "R-GEN", func(f *ssa.Function) bool {
 			return fnPkg(f) != nil && fnPkg(f).Path() == "ctl/des"
